@@ -699,7 +699,7 @@ fn de_compare<T: TestVal>(base: &[Tok], k: u32, strict: bool, what: &str, st: &m
             if !fresh {
                 violation("serde:not-fresh", format!("a deserialised Arc<{}> reuses an allocation that existed before the call", T::NAME));
             }
-            if b.size != want_size || b.align != want_align {
+            if b.size < want_size || b.align < want_align {
                 violation("layout:alloc", format!("deserialised Arc<{}>: block size {} align {}, counter+payload need size {} align {}", T::NAME, b.size, b.align, want_size, want_align));
             }
             // a second deserialisation is another allocation
